@@ -119,8 +119,17 @@ pub fn structured(rng: &mut Rng) -> Vec<u8> {
 /// the structured stream of a property (mostly default options: that is how such payloads are built)
 fn gen_structured(out: &mut Out, rng: &mut Rng, thorough: bool, prop: &str) {
     let n = if thorough { 1500 } else { 150 };
-    for k in 0..n {
-        let inp = structured(rng);
+    // artefacts of where the text came from (a file saved "UTF-8 with BOM", a line read with its terminator, a C string,
+    // a padded field): what precedes or follows the payload is part of the payload
+    let mut fixed: Vec<Vec<u8>> = Vec::new();
+    for body in ["0123456789", "HELLO-WORLD 42", "hello, world", "", "00000000000000000000", "A"] {
+        for (pre, post) in [("\u{feff}", ""), ("", "\n"), ("", "\r\n"), (" ", ""), ("", "\0"), ("\u{feff}", "\r\n"), ("\t", ""), ("\u{fffe}", "")] {
+            fixed.push(format!("{}{}{}", pre, body, post).into_bytes());
+        }
+    }
+    let nfixed = fixed.len();
+    for k in 0..n + nfixed {
+        let inp = if k < nfixed { fixed[k].clone() } else { structured(rng) };
         let o = Opts {
             ecl: if rng.chance(1, 2) { None } else { Some(rng.below(4)) },
             mode: None,
@@ -1019,6 +1028,15 @@ pub fn masku_line(v: usize, m: usize, fill: usize) -> String {
             }
         }
     }
+    // fills 3 and 4: the matrix of a FINISHED symbol (its fields say which level / version / mode / mask it carries) handed
+    // back to `datamasking::mask` — with the very mask it names (un-masking, fill 3) or another one (fill 4). What the
+    // fields say must not change what the sweep does.
+    if fill >= 3 {
+        q.version = Some(version_of(v));
+        q.ecl = Some(ecl_of((v + m) % 4));
+        q.mode = Some(mode_of((v + m) % 3));
+        q.mask = Some(mask_of(if fill == 3 { m } else { (m + 1) % 8 }));
+    }
     let before = raw_nibbles(&q);
     let r = std::panic::catch_unwind(std::panic::AssertUnwindSafe(|| {
         fast_qr::datamasking::mask(&mut q, mask_of(m));
@@ -1073,7 +1091,10 @@ pub fn find_ties(rng: &mut Rng, caps: &[Vec<Vec<usize>>], v: usize, tries: usize
 fn gen_c08(out: &mut Out, rng: &mut Rng, thorough: bool) {
     for v in 0..40 {
         for m in 0..8 {
-            for fill in [0usize, 2] {
+            for fill in [0usize, 2, 3, 4] {
+                if fill == 4 && !thorough && v % 4 != 0 {
+                    continue;
+                }
                 out.job(move || masku_line(v, m, fill));
             }
         }
